@@ -1,6 +1,7 @@
 import RulioProofs.SysCover
 import RulioProofs.CloseSys
 import RulioProofs.FirstVisits
+import RulioModel.Gen.Loc
 
 open AM
 
@@ -222,6 +223,19 @@ theorem visits_exactly_ancestors_quiet {α} {now : Int} {fn : String → LM α} 
     obtain ⟨p, hp, rfl⟩ := List.mem_map.1 hx
     exact no_downward_delivery wf hfnk hfnm n fuel h p hp
   · exact (doAncestors_cover hq wf fuel n [] [] ls h).2 x
+
+/-- **ancestor_walk_shape** (tie, regenerated from `core/location.go` on every run) — the decisive statements of
+`Location.doAncestors` in source order: the loop test on the current path comes first (`loop_reported`), then the test for a
+location that was visited already (`each_ancestor_once`; after the loop test, so that a chain that comes back is still a
+loop), the path is marked and un-marked by `defer` (a *path*, not a visited set: diamonds are no loops), the parents are
+walked before the location itself is visited (`doAncestors`' order), the location is marked done before its visit, and the
+visit `fn(loc)` is the last statement. Dropping the `defer delete`, visiting the location before its parents, testing `done`
+before `path`, or any new statement, changes the regenerated list and breaks this. -/
+theorem ancestor_walk_shape :
+    Gen.doAncestorsShape =
+      ["pathCheck", "doneCheck", "pathMark", "pathUnmarkDeferred", "parentsRead", "errReturn", "ifParents{", "providerCheck",
+       "forParents{", "selfParentCheck", "parentGet", "errReturn", "recurse:p.doAncestors(ctx, fn, path, done)", "}", "}",
+       "doneMark", "visit"] := by decide
 
 /-- **each_ancestor_once** — of the visits the walk makes, inherited search and dispatch keep the first per location
 (`firstVisits`, the model of the `done` set of `doAncestors`): the kept visits are visits of the walk in walk order, no
